@@ -229,6 +229,7 @@ static void fill_buf(rng_t* r, const bufspec_t* b, void* p, size_t bytes) {
 }
 
 __thread int op_exec_repeat;
+static __thread uint64_t op_exec_data_salt;  // perturbs the data streams only (shapes and scalar parameters still derive from the seed alone)
 void op_exec(const opdef_t* o, const env_t* env, uint64_t seed, int prefill, unsigned mis, unsigned monitors, opres_t* res) {
   memset(res, 0, sizeof *res);
   rng_t r;
@@ -252,7 +253,7 @@ void op_exec(const opdef_t* o, const env_t* env, uint64_t seed, int prefill, uns
     bufspec_t* b = &pl.b[i];
     const unsigned m8 = 8 * ((mis + 3u * (unsigned)i) % 8);
     rng_t rb;
-    rng_seed(&rb, seed ^ 0xA5A5, (uint64_t)i + 17);
+    rng_seed(&rb, (seed ^ 0xA5A5) + op_exec_data_salt * 0x9E3779B97F4A7C15ull, (uint64_t)i + 17);
     if (b->is_zvec) {
       zvec_alloc(&z[i], b->n, b->size, b->sl, m8);
       p[i] = z[i].p;
@@ -266,6 +267,7 @@ void op_exec(const opdef_t* o, const env_t* env, uint64_t seed, int prefill, uns
     } else {
       size_t al = b->align ? b->align : 8;
       size_t mm = al >= 16 ? (m8 / al) * al % 64 : m8;  // the contract promises 8-byte alignment, never less
+      if (b->word4 && (((mis >> 1) + (unsigned)i) & 1)) mm += 4;  // (except for arrays of 32-bit words)
       p[i] = gb_alloc(&g[i], b->bytes, al, mm, 4096);
       if (b->role == R_IN || b->role == R_INOUT || b->role == R_INTMP) {
         fill_buf(&rb, b, p[i], b->bytes);
@@ -334,6 +336,19 @@ void op_exec(const opdef_t* o, const env_t* env, uint64_t seed, int prefill, uns
   __asm__ volatile("fnstcw %0" : "=m"(cw0));
   o->call(&pl, p, env);
   __asm__ volatile("fnstcw %0" : "=m"(cw1));
+  {
+    // the rest of the CPU state a C caller relies on (System V ABI): direction flag clear, x87 register stack empty (a kernel
+    // using MMX registers without EMMS leaves it "full": the caller's next long double operation returns NaN)
+    unsigned long fl;
+    __asm__ volatile("pushfq\n\tpopq %0" : "=r"(fl));
+    struct { unsigned short cw, r0, sw, r1, tw, r2; unsigned int rest[4]; } fenv;
+    __asm__ volatile("fnstenv %0\n\tfldenv %0" : "+m"(fenv));
+    if ((fl & 0x400) || fenv.tw != 0xFFFF) {
+      res->fpenv_changed = 1;
+      if (!res->msg[0]) snprintf(res->msg, sizeof res->msg, "CPU state left by the call: direction flag %d, x87 tag word %#x (0xffff = empty)", (int)((fl >> 10) & 1), fenv.tw);
+      __asm__ volatile("cld\n\temms");
+    }
+  }
   if ((_mm_getcsr() & ~0x3Fu) != (csr0 & ~0x3Fu) || cw0 != cw1) {  // (the sticky exception flags are not state the results depend on)
     res->fpenv_changed = 1;
     if (!res->msg[0]) snprintf(res->msg, sizeof res->msg, "floating-point environment changed by the call: MXCSR %#x -> %#x, x87 CW %#x -> %#x", csr0, _mm_getcsr(), cw0, cw1);
@@ -430,6 +445,44 @@ void op_exec(const opdef_t* o, const env_t* env, uint64_t seed, int prefill, uns
         res->rerun_differs = 1;
         if (!res->msg[0]) snprintf(res->msg, sizeof res->msg, "a second call on the same buffers (outputs already holding the result, scratch as the first call left it) gave other output bits");
       }
+    }
+  }
+  if ((monitors & MON_RECONTENT) && !op_exec_data_salt && !(monitors & MON_SNAPSHOT)) {
+    // other data in the same buffers at the same addresses
+    for (int i = 0; i < pl.nb; i++) {
+      bufspec_t* b = &pl.b[i];
+      if (b->role != R_IN && b->role != R_INOUT && b->role != R_INTMP) continue;
+      rng_t rb;
+      rng_seed(&rb, (seed ^ 0xA5A5) + 1 * 0x9E3779B97F4A7C15ull, (uint64_t)i + 17);
+      if (b->is_zvec) {
+        for (uint64_t l = 0; l < b->size; l++) fill_buf(&rb, b, zvec_limb(&z[i], l), b->n * 8);
+        if (b->live_limbs)
+          for (uint64_t l = b->live_limbs - 1; l < b->size; l++) fill_pattern((uint8_t*)zvec_limb(&z[i], l), b->n * 8, prefill, 55 + l);
+      } else {
+        fill_buf(&rb, b, p[i], b->bytes);
+        if (b->live_bytes1 && b->live_bytes1 - 1 < b->bytes) fill_pattern((uint8_t*)p[i] + (b->live_bytes1 - 1), b->bytes - (b->live_bytes1 - 1), prefill, 66);
+      }
+    }
+    o->call(&pl, p, env);
+    uint64_t h2 = 0x1234;
+    for (int i = 0; i < pl.nb; i++) {
+      bufspec_t* b = &pl.b[i];
+      if (b->role != R_OUT && b->role != R_INOUT) continue;
+      if (b->is_zvec)
+        for (uint64_t l = 0; l < b->size; l++) h2 = hash_bytes(zvec_limb(&z[i], l), b->n * 8, h2);
+      else
+        h2 = hash_bytes(p[i], b->bytes, h2);
+    }
+    opres_t fr;
+    op_exec_data_salt = 1;
+    const int sr = op_exec_repeat;
+    op_exec_repeat = 0;
+    op_exec(o, env, seed, (prefill + 1) & 3, mis + 1, 0, &fr);
+    op_exec_repeat = sr;
+    op_exec_data_salt = 0;
+    if (!fr.skipped && fr.out_hash != h2) {
+      res->rerun_differs = 1;
+      if (!res->msg[0]) snprintf(res->msg, sizeof res->msg, "a second call with OTHER data written into the same input buffers returns other bits than a fresh call on that data (the first call's data or result is remembered by address)");
     }
   }
   for (int i = 0; i < pl.nb; i++) {
@@ -813,10 +866,10 @@ static void plan_to_znx64(opplan_t* pl, rng_t* r, const env_t* e) { (void)r; B_R
 TCALL(to_znx64, reim_to_znx64(e->to_znx64, p[0], p[1]))
 static void plan_to_tnx(opplan_t* pl, rng_t* r, const env_t* e) { (void)r; B_RAW(pl, R_OUT, F_NONE, 0, 2 * e->m * 8, 8); B_RAW(pl, R_IN, F_DBL, 10, 2 * e->m * 8, 8); }
 TCALL(to_tnx, reim_to_tnx(e->to_tnx, p[0], p[1]))
-static void plan_cplx_from32(opplan_t* pl, rng_t* r, const env_t* e) { (void)r; B_RAW(pl, R_OUT, F_NONE, 0, 2 * e->m * 8, 8); B_RAW(pl, R_IN, F_I32, 0, 2 * e->m * 4, 8); }
+static void plan_cplx_from32(opplan_t* pl, rng_t* r, const env_t* e) { (void)r; B_RAW(pl, R_OUT, F_NONE, 0, 2 * e->m * 8, 8); pl->b[B_RAW(pl, R_IN, F_I32, 0, 2 * e->m * 4, 8)].word4 = 1; }
 TCALL(cplx_from_znx32, cplx_from_znx32(e->cplx_from_znx32, p[0], p[1]))
 TCALL(cplx_from_tnx32, cplx_from_tnx32(e->cplx_from_tnx32, p[0], p[1]))
-static void plan_cplx_to_tnx32(opplan_t* pl, rng_t* r, const env_t* e) { (void)r; B_RAW(pl, R_OUT, F_NONE, 0, 2 * e->m * 4, 8); B_RAW(pl, R_IN, F_DBL, 10, 2 * e->m * 8, 8); }
+static void plan_cplx_to_tnx32(opplan_t* pl, rng_t* r, const env_t* e) { (void)r; pl->b[B_RAW(pl, R_OUT, F_NONE, 0, 2 * e->m * 4, 8)].word4 = 1; B_RAW(pl, R_IN, F_DBL, 10, 2 * e->m * 8, 8); }
 TCALL(cplx_to_tnx32, cplx_to_tnx32(e->cplx_to_tnx32, p[0], p[1]))
 
 // --- q120
@@ -1010,7 +1063,7 @@ static void plan_s_cplx_to_tnx32(opplan_t* pl, rng_t* r, const env_t* e) {
   static const int DE[] = {0, 4, 12};
   pl->u[0] = (rng_u64(r) & 1) ? 18 : 30;
   pl->d[0] = ldexp(1.0, DE[rng_u64(r) % 3]);
-  B_RAW(pl, R_OUT, F_NONE, 0, 2 * e->m * 4, 8);
+  pl->b[B_RAW(pl, R_OUT, F_NONE, 0, 2 * e->m * 4, 8)].word4 = 1;
   B_RAW(pl, R_IN, F_DBL, 10, 2 * e->m * 8, 8);
   SHAPE(pl, "ovh%u", (unsigned)pl->u[0]);
 }
@@ -1910,98 +1963,122 @@ static uint64_t life_use(int kind, uint64_t N, void* obj, const char** why) {
     }
   }
 }
+typedef struct {
+  rng_t* r;
+  int cfg, nk, cap, live, nviol;
+  int kinds[LK_NKINDS];
+  lobj_t* pool;
+  uint64_t uses, created, destroyed, maxlive;
+} lifectx_t;
+static const uint64_t LIFE_NS[] = {4, 8, 16, 64};
+// reference hash per (dispatch, kind, N): the first such object of the process (kept across cases)
+static uint64_t life_ref[N_DISP][LK_NKINDS][4];
+static void life_check(lifectx_t* c, const lobj_t* ob) {
+  const char* why = 0;
+  int ni = 0;
+  while (LIFE_NS[ni] != ob->N) ni++;
+  const uint64_t hh = life_use(ob->kind, ob->N, ob->obj, &why);
+  c->uses++;
+  if (why) {
+    if (c->nviol++ < 3) viol("oracle", "%s of dimension %" PRIu64 " (object number %" PRIu64 " created, %" PRIu64 " destroyed so far, %d alive): %s", LK_NAME[ob->kind], ob->N, c->created, c->destroyed, c->live, why);
+    return;
+  }
+  uint64_t* rf = &life_ref[c->cfg & 3][ob->kind][ni];
+  if (!*rf) *rf = hh;
+  else if (*rf != hh && c->nviol++ < 3)
+    viol("differential", "%s of dimension %" PRIu64 " computes other bits than the first such object of the process (%" PRIu64 " created, %" PRIu64 " destroyed so far, %d alive)", LK_NAME[ob->kind], ob->N, c->created, c->destroyed, c->live);
+}
+static void* life_step(void* arg) {
+  lifectx_t* c = arg;
+  rng_t* r = c->r;
+  set_dispatch(c->cfg);  // (the H1 hook's setting is read by the constructors: the same in whichever thread runs the step)
+  const unsigned a = (unsigned)(rng_u64(r) % 8);
+  if ((a < 3 && c->live < c->cap) || c->live == 0) {
+    const int kind = c->kinds[rng_u64(r) % (uint64_t)c->nk];
+    // few dimensions: several objects of the same (kind, dimension) are alive together, next to others
+    const uint64_t N = LIFE_NS[rng_u64(r) % (rng_u64(r) & 1 ? 2 : ARRAY_LEN(LIFE_NS))];
+    c->pool[c->live++] = (lobj_t){kind, N, life_new(kind, N)};
+    c->created++;
+    if ((uint64_t)c->live > c->maxlive) c->maxlive = (uint64_t)c->live;
+    if (rng_u64(r) & 1) life_check(c, &c->pool[c->live - 1]);
+  } else if (a < 5) {
+    const int v = (int)(rng_u64(r) % (uint64_t)c->live);
+    life_del(c->pool[v].kind, c->pool[v].obj);
+    c->pool[v] = c->pool[--c->live];
+    c->destroyed++;
+  } else
+    life_check(c, &c->pool[(size_t)(rng_u64(r) % (uint64_t)c->live)]);
+  return 0;
+}
+// threads: 0 every step in the calling thread; 1 every third step (creation, use or destruction alike) is made by a thread
+// created for it that exits afterwards - an object may be created by one thread, used by others and destroyed by yet another,
+// all of them gone by the time it is used again (the steps never overlap: this is about thread identity, not concurrency)
 void ops_lifecycle_case(const char* key, unsigned kindmask, int cfg, int steps, int mass, unsigned rep, const char* counter) {
-  char k[200];
-  snprintf(k, sizeof k, "%s|object lifecycle: random create/use/destroy%s%s%s", key, mass ? ",many alive at once" : "", cfg == DISP_NATIVE ? "" : ",", cfg == DISP_NATIVE ? "" : disp_name[cfg]);
+  char k[240];
+  const int threads = !mass && (rep % 3) == 2;
+  snprintf(k, sizeof k, "%s|object lifecycle: random create/use/destroy%s%s%s%s", key, mass ? ",many alive at once" : "", threads ? ",steps made by threads that exit" : "", cfg == DISP_NATIVE ? "" : ",", cfg == DISP_NATIVE ? "" : disp_name[cfg]);
   if (!case_begin(k, "kinds=%#x steps=%d mass=%d rep=%u", kindmask, steps, mass, rep)) return;
-  rng_t* r = crng();
+  lifectx_t c;
+  memset(&c, 0, sizeof c);
+  c.r = crng();
+  rng_t* r = c.r;
+  c.cfg = cfg;
   const int saved = g_dispatch_native;
   set_dispatch(cfg);
   if (cfg != DISP_NATIVE && cfg != DISP_AVX2_ONLY) kindmask &= ~((1u << LK_MOD_NTT120) | (1u << LK_NTT) | (1u << LK_INTT));  // behind the avx2 gate
-  int kinds[LK_NKINDS], nk = 0;
   for (int i = 0; i < LK_NKINDS; i++)
-    if (kindmask & (1u << i)) kinds[nk++] = i;
-  if (!nk) harness_fail("ops_lifecycle_case: no kind");
-  static const uint64_t NS[] = {4, 8, 16, 64};
-  // reference hash per (kind, N, dispatch): the first object of this case... of the process (kept across cases)
-  static uint64_t ref[N_DISP][LK_NKINDS][4];
-  uint64_t uses = 0, created = 0, destroyed = 0, maxlive = 0;
-  const int cap = mass ? mass : 12;
-  lobj_t* pool = calloc((size_t)cap + 1, sizeof *pool);
-  int live = 0;
-  int nviol = 0;
-#define LIFE_USE(OBJ)                                                                                                                                  \
-  do {                                                                                                                                                 \
-    const lobj_t* ob_ = (OBJ);                                                                                                                         \
-    const char* why_ = 0;                                                                                                                              \
-    int ni_ = 0;                                                                                                                                       \
-    while (NS[ni_] != ob_->N) ni_++;                                                                                                                   \
-    const uint64_t hh_ = life_use(ob_->kind, ob_->N, ob_->obj, &why_);                                                                                 \
-    uses++;                                                                                                                                            \
-    if (why_ && nviol++ < 3) viol("oracle", "%s of dimension %" PRIu64 " (object number %" PRIu64 " created, %" PRIu64 " destroyed so far, %d alive): %s", LK_NAME[ob_->kind], ob_->N, created, destroyed, live, why_); \
-    if (!why_) {                                                                                                                                       \
-      uint64_t* rf_ = &ref[cfg & 3][ob_->kind][ni_];                                                                                                   \
-      if (!*rf_) *rf_ = hh_;                                                                                                                           \
-      else if (*rf_ != hh_ && nviol++ < 3)                                                                                                             \
-        viol("differential", "%s of dimension %" PRIu64 " computes other bits than the first such object of the process (%" PRIu64 " created, %" PRIu64 " destroyed so far, %d alive)", LK_NAME[ob_->kind], ob_->N, created, destroyed, live); \
-    }                                                                                                                                                  \
-  } while (0)
+    if (kindmask & (1u << i)) c.kinds[c.nk++] = i;
+  if (!c.nk) harness_fail("ops_lifecycle_case: no kind");
+  c.cap = mass ? mass : 12;
+  c.pool = calloc((size_t)c.cap + 1, sizeof *c.pool);
   if (mass) {
     // one cheap kind, `mass` objects alive at once
-    const int kind = kinds[rng_u64(r) % (uint64_t)nk];
-    const uint64_t N = NS[rng_u64(r) % 2];
+    const int kind = c.kinds[rng_u64(r) % (uint64_t)c.nk];
+    const uint64_t N = LIFE_NS[rng_u64(r) % 2];
     const int K = mass - (int)(rng_u64(r) % 40);
     for (int i = 0; i < K; i++) {
-      pool[live++] = (lobj_t){kind, N, life_new(kind, N)};
-      created++;
+      c.pool[c.live++] = (lobj_t){kind, N, life_new(kind, N)};
+      c.created++;
     }
-    maxlive = (uint64_t)live;
-    LIFE_USE(&pool[0]);
-    LIFE_USE(&pool[live - 1]);
+    c.maxlive = (uint64_t)c.live;
+    life_check(&c, &c.pool[0]);
+    life_check(&c, &c.pool[c.live - 1]);
     const int D = 1 + (int)(rng_u64(r) % (uint64_t)(K - 1));
     for (int i = 0; i < D; i++) {  // destroy D of them, chosen at random
-      const int v = (int)(rng_u64(r) % (uint64_t)live);
-      life_del(pool[v].kind, pool[v].obj);
-      pool[v] = pool[--live];
-      destroyed++;
+      const int v = (int)(rng_u64(r) % (uint64_t)c.live);
+      life_del(c.pool[v].kind, c.pool[v].obj);
+      c.pool[v] = c.pool[--c.live];
+      c.destroyed++;
     }
-    for (int i = 0; i < live && i < 8; i++) LIFE_USE(&pool[(size_t)(rng_u64(r) % (uint64_t)live)]);
-    LIFE_USE(&pool[0]);
+    for (int i = 0; i < c.live && i < 8; i++) life_check(&c, &c.pool[(size_t)(rng_u64(r) % (uint64_t)c.live)]);
+    life_check(&c, &c.pool[0]);
     cnt("lifecycle_mass_objects_alive", (uint64_t)K);
   } else {
+    uint64_t threaded = 0;
     for (int st = 0; st < steps; st++) {
-      const unsigned a = (unsigned)(rng_u64(r) % 8);
-      if ((a < 3 && live < cap) || live == 0) {
-        const int kind = kinds[rng_u64(r) % (uint64_t)nk];
-        // few dimensions: several objects of the same (kind, dimension) are alive together, next to others
-        const uint64_t N = NS[rng_u64(r) % (rng_u64(r) & 1 ? 2 : ARRAY_LEN(NS))];
-        pool[live++] = (lobj_t){kind, N, life_new(kind, N)};
-        created++;
-        if ((uint64_t)live > maxlive) maxlive = (uint64_t)live;
-        if (rng_u64(r) & 1) LIFE_USE(&pool[live - 1]);
-      } else if (a < 5) {
-        const int v = (int)(rng_u64(r) % (uint64_t)live);
-        life_del(pool[v].kind, pool[v].obj);
-        pool[v] = pool[--live];
-        destroyed++;
+      if (threads && (st % 3) == 1) {
+        pthread_t t;
+        pthread_create(&t, 0, life_step, &c);
+        pthread_join(t, 0);
+        threaded++;
       } else
-        LIFE_USE(&pool[(size_t)(rng_u64(r) % (uint64_t)live)]);
+        life_step(&c);
     }
-    for (int i = 0; i < live; i++) LIFE_USE(&pool[i]);
+    for (int i = 0; i < c.live; i++) life_check(&c, &c.pool[i]);
+    if (threads) cnt("lifecycle_steps_by_exiting_threads", threaded);
   }
-  while (live) {
-    live--;
-    life_del(pool[live].kind, pool[live].obj);
-    destroyed++;
+  while (c.live) {
+    c.live--;
+    life_del(c.pool[c.live].kind, c.pool[c.live].obj);
+    c.destroyed++;
   }
-#undef LIFE_USE
-  free(pool);
+  free(c.pool);
   set_dispatch(saved);
-  cnt(counter, uses);
-  cnt("lifecycle_objects_created", created);
-  gauge_max("lifecycle_max_objects_alive", (double)maxlive);
-  sample("%" PRIu64 " objects created and destroyed in random order (at most %" PRIu64 " alive), %" PRIu64 " uses equal to the first object of their kind and dimension", created, maxlive, uses);
-  case_end(uses > 0);
+  cnt(counter, c.uses);
+  cnt("lifecycle_objects_created", c.created);
+  gauge_max("lifecycle_max_objects_alive", (double)c.maxlive);
+  sample("%" PRIu64 " objects created and destroyed in random order (at most %" PRIu64 " alive), %" PRIu64 " uses equal to the first object of their kind and dimension", c.created, c.maxlive, c.uses);
+  case_end(c.uses > 0);
 }
 
 // ---------------------------------------------------------------- in-place ring maps after a long history
